@@ -240,6 +240,56 @@ def kernel_table(rep, F, rule='R-TABLE'):
     return n
 
 
+def remainder_rounded(rep, F, rule='ROUND-REACHED'):
+    """Must-pass-through on the division kernel: on every path of impl_division that has divided (div_rem) and returns
+    a quotient, either the last test of the remainder found it zero (the quotient is exact) or the rounding term
+    (get_rounding_term) was added.  An exit between the first division and the rounding step returns a truncated
+    quotient.  Paths are enumerated with loops cut; the recursive sign-normalising calls return before any division."""
+    from rules import table as TB
+    fn = F.fns.get('impl_division')
+    if fn is None:
+        return 0
+    key = fn.key + ':inexact-quotient-is-rounded'
+    try:
+        pe = TB.PathEnum(F, fn, max_paths=2000, cut_loops=True)
+        paths = pe.run()
+    except TB.Undecided as e:
+        rep.undecided(rule, key, str(e), fn.where())
+        return 0
+    ok = 0
+    bad = None
+    for (atoms, out), eff in zip(paths, pe.effects):
+        names = [TB._plain(c) for c, a in eff]
+        if not any(re.search(r'div_rem$', c) for c in names):
+            continue
+        if isinstance(out, tuple) and out and out[0] == 'loop':
+            continue                                       # a path cut at a loop head is not a return
+        if any(re.search(r'impl_division$', c) for c in names):
+            continue                                       # sign normalisation: the recursive call's own paths are these same paths
+        if any(re.search(r'get_rounding_term$', c) for c in names):
+            ok += 1
+            continue
+        last = None
+        for a, c in atoms:
+            s0 = TB.show(TB.strip_refs(a))
+            if re.match(r'^(Zero::)?is_zero\(', s0) and not re.match(r'^(Zero::)?is_zero\(arg\d+\)$', s0):      # a test of something computed (the remainder), not of an operand
+                last = not (c == ('eq', 0))
+        if last is True:
+            ok += 1
+        elif last is None:
+            rep.undecided(rule, key, 'a dividing path returns without a recognisable test of the remainder', fn.where())
+            return 1
+        else:
+            bad = 'a path divides, finds the remainder non-zero and returns the quotient without adding the rounding term: the result is truncated toward zero'
+    if bad:
+        rep.violation(rule, key, bad, fn.where())
+    elif ok:
+        rep.ok(rule, key, '%d dividing path(s): each ends with a zero remainder or passes through get_rounding_term' % ok, fn.where())
+    else:
+        return 0
+    return 1
+
+
 def run(ctx):
     rep = ctx.rep
     rep.explanation = ('Static MIR analysis (no bigdecimal code is executed). R-GUARD: for every Div/DivAssign impl whose divisor is an integer, BigInt or '
@@ -284,5 +334,7 @@ def run(ctx):
         else:
             rep.undecided('R-SCALE', key, (msgs or ['loop invariants not established'])[0][:200], fdiv.where())
     rep.floor('primitive-operand Div forms', ns, 80)
+    nrr = remainder_rounded(rep, F)
+    rep.floor('division kernel checked for rounding of an inexact quotient', nrr, 1)
     rep.trust('num-bigint: BigInt/BigUint Div, Rem, div_rem panic on a zero divisor')
     rep.trust('rustc MIR construction and trait resolution (nightly) for the same source the stable build compiles')
